@@ -15,6 +15,7 @@ import CtrlVerif.Driver.Mat
 import CtrlVerif.Model.Flat
 import CtrlVerif.Model.FlatHist
 import CtrlVerif.Driver.FlatMulti
+import CtrlVerif.Driver.FlatParams
 
 namespace CtrlVerif.Driver.Flat
 
@@ -123,10 +124,12 @@ def run : P String := do
     | .ok L => runOps L ""
 
 /-- `flat multi …` is a user-defined flat system with several flat outputs
-(`Driver/FlatMulti.lean`); everything else is a linear SISO system. -/
+(`Driver/FlatMulti.lean`), `flat par …` one with parameters (`Driver/FlatParams.lean`); everything
+else is a linear SISO system. -/
 def handle (toks : List String) : String :=
   match toks with
   | "multi" :: rest => FlatMulti.handle rest
+  | "par" :: rest => FlatParams.handle rest
   | _ => runLine run toks
 
 end CtrlVerif.Driver.Flat
